@@ -918,4 +918,18 @@ mod tests {
 #[allow(missing_docs, unused_imports, dead_code, clippy::all, clippy::pedantic, clippy::nursery)]
 pub mod verif_hooks {
     use super::*;
+
+    /// The period predicates in the order year, half-year, quarter-year, month, week, day, hour, minute.
+    pub fn period_predicates(sn1: &SnapshotFile, sn2: &SnapshotFile) -> [bool; 8] {
+        [
+            equal_year(sn1, sn2),
+            equal_half_year(sn1, sn2),
+            equal_quarter_year(sn1, sn2),
+            equal_month(sn1, sn2),
+            equal_week(sn1, sn2),
+            equal_day(sn1, sn2),
+            equal_hour(sn1, sn2),
+            equal_minute(sn1, sn2),
+        ]
+    }
 }
